@@ -748,8 +748,10 @@ def pick_flags(rng, profile, bit):
             fl.update(rng.choice(CODEC_SETS[1:]))
         if fl["sql"] and rng.random() < 0.3:
             fl["gorm"] = True
-    elif rng.random() < 0.25:
+    elif rng.random() < 0.35:
         fl.update(rng.choice(CODEC_SETS))
+        if fl["sql"] and rng.random() < 0.5:
+            fl["gorm"] = True       # -bit / plain enums together with -sql -gorm (stub module)
     return fl
 
 
